@@ -375,6 +375,29 @@ def cache(rc):
                 els = [dotted(x) for x in l.value.elts] if isinstance(l.value, ast.List) else []
                 if len(els) != 4 or els[2] != key or els[3] != val:
                     rc.fail(call, l, "the cache link must hold [prev, next, key, value]")
+            # EVERY definition of the stored link that can reach the store (after the value was computed) carries this call's key and value: a fresh list
+            # literal [.., .., key, value], or a recycled link whose key slot AND value slot are both overwritten before it is stored
+            comp_line = min((c.lineno for c in computes), default=0)
+            alldefs = [n for n in ast.walk(call.node) if isinstance(n, ast.Assign) and len(n.targets) == 1 and dotted(n.targets[0]) == lname and comp_line < n.lineno < st.lineno]
+            for d_ in alldefs:
+                if isinstance(d_.value, ast.List):
+                    els = [dotted(x) for x in d_.value.elts]
+                    if len(els) != 4 or els[2] != key or els[3] != val:
+                        rc.fail(call, d_, "the cache link must hold [prev, next, key, value]", construct="store link literal")
+                    continue
+                slot_sets = {}
+                for n in ast.walk(call.node):
+                    if isinstance(n, ast.Assign) and d_.lineno < n.lineno < st.lineno:
+                        for t in n.targets:
+                            if isinstance(t, ast.Subscript) and dotted(t.value) == lname:
+                                slot_sets[norm(t.slice)] = dotted(n.value)
+                has_key = slot_sets.get("_KEY") == key or slot_sets.get("2") == key
+                has_val = slot_sets.get("_VALUE") == val or slot_sets.get("3") == val
+                rc.ob(f"LRUCache.__call__: recycled link `{norm(d_, 50)}`: key slot set {has_key}, value slot set {has_val}")
+                if not (has_key and has_val):
+                    rc.fail(call, d_, f"LRUCache.__call__: the link stored under the new key is a recycled one (`{norm(d_, 50)}`) whose "
+                            f"{'value' if has_key else 'key'} slot still holds the evicted entry's: later hits for this key return another pair's score",
+                            construct="recycled link keeps stale slot")
     # a hit returns the stored value of that link
     hit = [n for n in walk_no_nested(call.node) if isinstance(n, ast.Assign) and isinstance(n.targets[0], ast.Tuple) and link is not None and dotted(n.value) == link]
     for h in hit:
@@ -434,6 +457,13 @@ _BDEU_OLD = "        gamma_conds_adj = (num_parents_states - counts.shape[1]) * 
 def defuse(rc):
     from . import shared as _sh
     _sh.defuse_rule(rc, _sh.anchor_files("C10"))
+
+
+@rule("C10.data", "preprocess_data (run in front of every estimator, score and CI test) hands on the caller's values: copy, column-wise value-preserving casts", floor=2)
+def data_(rc):
+    from . import shared as _sh
+    _sh.preprocess_rule(rc)
+
 
 MUTANTS = [
     dict(kind="break", name="cache-does-not-forward-prior", file=SC, expect="C10.cache",
